@@ -52,6 +52,11 @@ const (
 	// dnsDBConfig.validate reports max_size as "size".
 	vc20KnownDNSDBName = "dnsdb-max-size-reported-as-size"
 
+	// serverGroups.collectSessTicketPaths dereferences the tls section of every
+	// group, also of a group that needs none and, as documented, has none:
+	// builder.initTLSManager panics at start-up.
+	vc20KnownNoTLSSection = "no-tls-section-nil-dereference"
+
 	// ratelimitTCPConfig.validate has no upper bound for max_pipeline_count;
 	// the TCP and TLS servers make a channel of that capacity for every
 	// connection.
@@ -536,6 +541,66 @@ func vc20Requirements() (reqs []vc20Requirement) {
 			return typ != "backend" && typ != "cache" && typ != "consul" && typ != "redis", typ
 		},
 	}, vc20Requirement{
+		name: "a server group with a tls, https or quic server has a tls section with certificates",
+		broken: func(c *configuration) (bool, string) {
+			for _, g := range c.ServerGroups {
+				needs := ""
+				for _, s := range g.Servers {
+					switch s.Protocol {
+					case "tls", "https", "quic":
+						needs = s.Name + " (" + string(s.Protocol) + ")"
+					}
+				}
+
+				if needs == "" {
+					continue
+				}
+
+				if g.TLS == nil || len(g.TLS.Certificates) == 0 {
+					return true, "group " + g.Name + " has " + needs + " but no certificates"
+				}
+
+				for _, crt := range g.TLS.Certificates {
+					if crt == nil || crt.Certificate == "" || crt.Key == "" {
+						return true, "group " + g.Name + " has " + needs + " and an empty certificate entry"
+					}
+				}
+			}
+
+			return false, ""
+		},
+	}, vc20Requirement{
+		name: "a dnscrypt server has a dnscrypt section with either config_path or inline",
+		broken: func(c *configuration) (bool, string) {
+			for _, g := range c.ServerGroups {
+				for _, s := range g.Servers {
+					if s.Protocol != "dnscrypt" {
+						continue
+					}
+
+					if dc := s.DNSCrypt; dc == nil || (dc.ConfigPath == "") == (dc.Inline == nil) {
+						return true, "server " + s.Name
+					}
+				}
+			}
+
+			return false, ""
+		},
+	}, vc20Requirement{
+		name: "a server has either bind_addresses or bind_interfaces, and bind_interfaces only with protocol dns",
+		broken: func(c *configuration) (bool, string) {
+			for _, g := range c.ServerGroups {
+				for _, s := range g.Servers {
+					addrs, ifaces := len(s.BindAddresses) > 0, len(s.BindInterfaces) > 0
+					if addrs == ifaces || (ifaces && s.Protocol != "dns") {
+						return true, "server " + s.Name
+					}
+				}
+			}
+
+			return false, ""
+		},
+	}, vc20Requirement{
 		name: "server_groups.*.servers.*.protocol is dns, dnscrypt, https, quic or tls",
 		broken: func(c *configuration) (bool, string) {
 			for _, g := range c.ServerGroups {
@@ -662,6 +727,11 @@ func vc20OutsideWorld(step, errText string) (ok bool) {
 
 // vc20Checker evaluates cases.
 type vc20Checker struct {
+	// variants are the servers of generated server groups; drawnClasses are
+	// the labels of the last drawn protocol set.
+	variants     []*vc20ServerVariant
+	drawnClasses []string
+
 	fx       *vc20Fixture
 	st       *vstat.Stats
 	reqs     []vc20Requirement
@@ -766,6 +836,11 @@ func (ck *vc20Checker) vc20Load(tree yaml.MapSlice) (c *configuration, parseErr,
 
 // vc20Eval evaluates one list of mutations.
 func (ck *vc20Checker) vc20Eval(t vc20T, muts []vc20Mutation, pair bool) {
+	ck.vc20EvalClasses(t, muts, pair, nil)
+}
+
+// vc20EvalClasses is vc20Eval with additional histogram labels.
+func (ck *vc20Checker) vc20EvalClasses(t vc20T, muts []vc20Mutation, pair bool, extra []string) {
 	st := ck.st
 	tree := vc20Copy(ck.fx.base)
 
@@ -782,7 +857,7 @@ func (ck *vc20Checker) vc20Eval(t vc20T, muts []vc20Mutation, pair bool) {
 
 	descr := make([]string, 0, len(applied))
 	keyParts := make([]string, 0, len(applied))
-	classes := []string{fmt.Sprintf("mutations:%d", len(applied))}
+	classes := append([]string{fmt.Sprintf("mutations:%d", len(applied))}, extra...)
 	for _, m := range applied {
 		descr = append(descr, m.String())
 		keyParts = append(keyParts, m.field.name+"="+m.val.class+"/"+vc20ValueString(m.val.v))
@@ -845,6 +920,16 @@ func (ck *vc20Checker) vc20Eval(t vc20T, muts []vc20Mutation, pair bool) {
 	}
 
 	o := ck.fx.vc20Exercise(c)
+	if o.realListenerFailed {
+		// Sockets on ephemeral loopback ports that are shared with the other
+		// processes of a busy machine (the listeners set SO_REUSEPORT) can
+		// get somebody else's datagrams.  What a configuration causes, it
+		// causes every time: the exercise is repeated with fresh listeners and
+		// the second outcome counts.
+		classes = append(classes, "real-listener-failure-rechecked")
+		o = ck.fx.vc20Exercise(c)
+	}
+
 	classes = append(classes, o.classes...)
 	if o.timeouts > 0 {
 		classes = append(classes, "had-timeouts")
@@ -912,6 +997,15 @@ func (ck *vc20Checker) vc20Eval(t vc20T, muts []vc20Mutation, pair bool) {
 			strings.Join(broken, "\n    "), caseText, o.failures, late)
 	}
 
+	if o.noTLSSectionPanic != "" {
+		classes = append(classes, "group-without-tls-section-panics")
+		if !st.Known(vc20KnownNoTLSSection) {
+			outcome = "accepted-failing"
+			t.Fatalf("C20: an accepted configuration with a server group that needs no tls section and has none makes the start-up panic:\n    %s\n  mutations:\n    %s",
+				o.noTLSSectionPanic, caseText)
+		}
+	}
+
 	if len(o.failures) > 0 {
 		outcome = "accepted-failing"
 		t.Fatalf("C20: an accepted configuration makes building or request handling fail:\n    %s\n  mutations:\n    %s\n  late errors: %v",
@@ -970,6 +1064,23 @@ func vc20ThresholdPair(a, b *vc20Field, va, vb int64) (muts []vc20Mutation) {
 // vc20DrawMutations draws 1-4 mutations (biased to one), or a threshold pair.
 func (ck *vc20Checker) vc20DrawMutations(t *rapid.T, weighted []int) (muts []vc20Mutation, pair bool) {
 	fx := ck.fx
+	if len(ck.variants) > 0 && rapid.IntRange(0, 11).Draw(t, "protocolSetMode") == 0 {
+		// A server group of one to three servers with some tls section,
+		// possibly together with one more mutation elsewhere.
+		n := rapid.IntRange(1, 3).Draw(t, "servers")
+		members := rapid.Permutation(ck.variants).Draw(t, "members")[:n]
+		muts, ck.drawnClasses = fx.vc20ProtocolSet(t, members, rapid.SampledFrom(vc20TLSStates).Draw(t, "tls"))
+		if rapid.Bool().Draw(t, "more") {
+			f := fx.fields[rapid.SampledFrom(weighted).Draw(t, "field")]
+			if f.path[0] != "server_groups" {
+				vals := vc20Values(f, fx.enums, fx.xrefs)
+				muts = append(muts, vc20Mutation{field: f, val: rapid.SampledFrom(vals).Draw(t, "value")})
+			}
+		}
+
+		return muts, false
+	}
+
 	if len(fx.siblings) > 0 && rapid.IntRange(0, 7).Draw(t, "pairMode") == 0 {
 		grp := rapid.SampledFrom(fx.siblings).Draw(t, "siblings")
 		i := rapid.IntRange(0, len(grp)-1).Draw(t, "first")
@@ -1062,7 +1173,7 @@ const vc20Rule = "mutations of config.dist.yaml over an automatically extracted 
 // TestVerifC20Singles enumerates every single-field mutation of the catalogue.
 func TestVerifC20Singles(t *testing.T) {
 	st := vstat.New("C20", "cmd.singles", "bounded-exhaustive: every catalogue field x every mutation value, one at a time; "+vc20Rule,
-		"accepted", "rejected-named", "rejected-parse", "exercise-full", "dot-real-answered",
+		"accepted", "rejected-named", "rejected-parse", "exercise-full", "dot-real-answered", "doh-real-answered", "doq-real-answered", "dnscrypt-real-answered",
 		"val:zero", "val:neg", "val:missing", "val:null", "val:huge", "val:max-family-1", "val:max-family+1",
 		"val:limit-1", "val:limit+1", "val:duplicate-element", "val:wrong-enum", "val:dangling-ref",
 		"kind:prefixlen", "kind:duration", "kind:size", "kind:count", "kind:enum", "kind:xref", "kind:node",
@@ -1133,6 +1244,219 @@ func TestVerifC20Switches(t *testing.T) {
 	col.report()
 }
 
+// vc20ServerVariant is a server of a generated server group.
+type vc20ServerVariant struct {
+	name  string
+	proto string
+
+	// needsTLS tells that the documentation lists the protocol as one that
+	// uses the group's TLS settings.
+	needsTLS bool
+	node     yaml.MapSlice
+}
+
+// vc20MapSet returns m with key set to v (or removed if v is vc20Missing).
+func vc20MapSet(m yaml.MapSlice, key string, v any) (res yaml.MapSlice) {
+	out, _ := vc20Set(m, []any{key}, v)
+	res, _ = out.(yaml.MapSlice)
+
+	return res
+}
+
+// vc20ServerVariants derives, from the servers of the distributed example,
+// one server per protocol and way of binding, plus servers whose sections do
+// not fit their protocol.
+func (fx *vc20Fixture) vc20ServerVariants(tb testing.TB) (vars []*vc20ServerVariant) {
+	node, ok := vc20Get(fx.base, []any{"server_groups", 0, "servers"})
+	if !ok {
+		tb.Fatalf("fixture: the distributed configuration has no server_groups.0.servers")
+	}
+
+	byProto := map[string]yaml.MapSlice{}
+	var inline, iface yaml.MapSlice
+	for _, it := range node.([]any) {
+		srv := it.(yaml.MapSlice)
+		proto, _ := vc20Get(srv, []any{"protocol"})
+		p := fmt.Sprint(proto)
+		if _, isInline := vc20Get(srv, []any{"dnscrypt", "inline"}); isInline {
+			inline = srv
+		} else if _, seen := byProto[p]; !seen {
+			byProto[p] = srv
+		}
+
+		if _, hasIfaces := vc20Get(srv, []any{"bind_interfaces"}); hasIfaces && iface == nil {
+			iface = srv
+		}
+	}
+
+	for _, p := range []string{"dns", "tls", "https", "quic", "dnscrypt"} {
+		if byProto[p] == nil {
+			tb.Fatalf("fixture: the distributed configuration has no %s server", p)
+		}
+	}
+
+	if inline == nil || iface == nil {
+		tb.Fatalf("fixture: the distributed configuration has no inline dnscrypt server or no bind_interfaces")
+	}
+
+	ifaces, _ := vc20Get(iface, []any{"bind_interfaces"})
+	dcSection, _ := vc20Get(byProto["dnscrypt"], []any{"dnscrypt"})
+	mk := func(name, proto string, from yaml.MapSlice, edit func(m yaml.MapSlice) yaml.MapSlice) {
+		m := vc20MapSet(vc20Copy(from).(yaml.MapSlice), "name", "c20_"+name)
+		if edit != nil {
+			m = edit(m)
+		}
+
+		vars = append(vars, &vc20ServerVariant{
+			name:     name,
+			proto:    proto,
+			needsTLS: proto == "tls" || proto == "https" || proto == "quic",
+			node:     m,
+		})
+	}
+
+	withIfaces := func(m yaml.MapSlice) yaml.MapSlice {
+		return vc20MapSet(vc20MapSet(m, "bind_addresses", vc20Missing{}), "bind_interfaces", vc20Copy(ifaces))
+	}
+
+	mk("dns-ifaces", "dns", byProto["dns"], nil)
+	mk("dns-addrs", "dns", byProto["dns"], func(m yaml.MapSlice) yaml.MapSlice {
+		return vc20MapSet(vc20MapSet(m, "bind_interfaces", vc20Missing{}), "bind_addresses", []any{"127.0.0.1:5354"})
+	})
+	mk("tls", "tls", byProto["tls"], nil)
+	mk("https", "https", byProto["https"], nil)
+	mk("quic", "quic", byProto["quic"], nil)
+	mk("dnscrypt-file", "dnscrypt", byProto["dnscrypt"], nil)
+	mk("dnscrypt-inline", "dnscrypt", inline, nil)
+
+	// Sections that do not fit the protocol.
+	mk("tls-ifaces", "tls", byProto["tls"], withIfaces)
+	mk("quic-ifaces", "quic", byProto["quic"], withIfaces)
+	mk("https-both-binds", "https", byProto["https"], func(m yaml.MapSlice) yaml.MapSlice {
+		return vc20MapSet(m, "bind_interfaces", vc20Copy(ifaces))
+	})
+	mk("dnscrypt-no-section", "dnscrypt", byProto["dnscrypt"], func(m yaml.MapSlice) yaml.MapSlice {
+		return vc20MapSet(m, "dnscrypt", vc20Missing{})
+	})
+	mk("quic-with-dnscrypt-section", "quic", byProto["quic"], func(m yaml.MapSlice) yaml.MapSlice {
+		return vc20MapSet(m, "dnscrypt", vc20Copy(dcSection))
+	})
+	mk("dns-with-dnscrypt-section", "dns", byProto["dns"], func(m yaml.MapSlice) yaml.MapSlice {
+		return vc20MapSet(m, "dnscrypt", vc20Copy(dcSection))
+	})
+
+	return vars
+}
+
+// vc20TLSStates are the states of the tls section of a generated server group.
+var vc20TLSStates = []string{"present", "absent", "null", "empty", "no-certificates"}
+
+// vc20ProtocolSet returns the mutations that make the first server group
+// consist of the given servers with its tls section in the given state, and
+// the classes of the case.
+func (fx *vc20Fixture) vc20ProtocolSet(
+	tb vc20T,
+	members []*vc20ServerVariant,
+	tlsState string,
+) (muts []vc20Mutation, classes []string) {
+	find := func(name string) (f *vc20Field) {
+		for _, f = range fx.fields {
+			if f.name == name {
+				return f
+			}
+		}
+
+		tb.Fatalf("fixture: no field %s in the catalogue", name)
+
+		return nil
+	}
+
+	var list []any
+	tlsUsers := map[string]struct{}{}
+	for _, m := range members {
+		list = append(list, vc20Copy(m.node))
+		if m.needsTLS {
+			tlsUsers[m.proto] = struct{}{}
+		}
+	}
+
+	muts = append(muts, vc20Mutation{
+		field: find("server_groups.0.servers"),
+		val:   vc20Value{class: "protocol-set", v: list},
+	})
+
+	switch tlsState {
+	case "absent":
+		muts = append(muts, vc20Mutation{field: find("server_groups.0.tls"), val: vc20Value{class: "missing", v: vc20Missing{}}})
+	case "null":
+		muts = append(muts, vc20Mutation{field: find("server_groups.0.tls"), val: vc20Value{class: "null", v: nil}})
+	case "empty":
+		muts = append(muts, vc20Mutation{field: find("server_groups.0.tls"), val: vc20Value{class: "empty", v: yaml.MapSlice{}}})
+	case "no-certificates":
+		muts = append(muts, vc20Mutation{field: find("server_groups.0.tls.certificates"), val: vc20Value{class: "empty", v: []any{}}})
+	}
+
+	classes = append(classes, "tls-section:"+tlsState, fmt.Sprintf("servers-in-group:%d", len(members)))
+	if _, quic := tlsUsers["quic"]; quic && len(tlsUsers) == 1 {
+		classes = append(classes, "quic-only-group")
+	}
+
+	if len(tlsUsers) == 1 {
+		for p := range tlsUsers {
+			classes = append(classes, "only-tls-user:"+p)
+		}
+	}
+
+	if len(tlsUsers) == 0 {
+		classes = append(classes, "no-tls-user")
+	}
+
+	return muts, classes
+}
+
+// TestVerifC20ProtocolSets enumerates server groups made of every single server
+// variant and every pair of them (each protocol, bound to addresses or to
+// interfaces, with and without the sections that belong to other protocols),
+// crossed with the states of the group's tls section.
+func TestVerifC20ProtocolSets(t *testing.T) {
+	st := vstat.New("C20", "cmd.protocolsets", "bounded-exhaustive: server group = every single server variant and every pair (dns/tls/https/quic/dnscrypt x addresses/interfaces x fitting/unfitting sections) x tls section present/absent/null/empty/without certificates; real listeners of every protocol are started and queried; "+vc20Rule,
+		"accepted", "rejected-named", "exercise-full", "quic-only-group", "only-tls-user:tls", "only-tls-user:https", "no-tls-user",
+		"tls-section:present", "tls-section:absent", "tls-section:empty",
+		"dns-real-answered", "dot-real-answered", "doh-real-answered", "doq-real-answered", "dnscrypt-real-answered")
+	st.SetExhaustive()
+	st.Finish(t)
+
+	ck := vc20NewChecker(t, st)
+	col := &vc20Collector{t: t}
+	sh := vc20NewShard()
+	vars := ck.fx.vc20ServerVariants(t)
+
+	var sets [][]*vc20ServerVariant
+	for i, a := range vars {
+		sets = append(sets, []*vc20ServerVariant{a})
+		for _, b := range vars[i+1:] {
+			sets = append(sets, []*vc20ServerVariant{a, b})
+		}
+	}
+
+	for _, set := range sets {
+		for _, tlsState := range vc20TLSStates {
+			if !sh.mine() {
+				continue
+			}
+
+			col.run(func() {
+				muts, classes := ck.fx.vc20ProtocolSet(col, set, tlsState)
+				ck.vc20EvalClasses(col, muts, false, classes)
+			})
+		}
+	}
+
+	st.Extra("goroutines_at_end", runtime.NumGoroutine())
+	st.Extra("queries_that_reached_the_loopback_upstream", ck.fx.upsCount.Load())
+	col.report()
+}
+
 // TestVerifC20Thresholds enumerates, for every pair of integer properties of
 // one object (stop and resume, size and ecs_size, the ports of a DDR record,
 // count and subnet_key_len), all combinations of boundary values in both
@@ -1168,8 +1492,9 @@ func TestVerifC20Thresholds(t *testing.T) {
 
 // TestVerifC20Mutate draws subsets of one to four fields and threshold pairs.
 func TestVerifC20Mutate(t *testing.T) {
-	st := vstat.New("C20", "cmd.mutate", "rapid: 1-4 fields (biased to one) or a pair of sibling thresholds in all orders; "+vc20Rule,
-		"accepted", "rejected-named", "rejected-parse", "exercise-full", "threshold-pair", "dot-real-answered",
+	st := vstat.New("C20", "cmd.mutate", "rapid: 1-4 fields (biased to one), properties of one object, a pair of sibling thresholds in all orders, or a generated server group of 1-3 servers x tls section states; "+vc20Rule,
+		"accepted", "rejected-named", "rejected-parse", "exercise-full", "threshold-pair",
+		"dot-real-answered", "doh-real-answered", "doq-real-answered", "dnscrypt-real-answered", "quic-only-group",
 		"mutations:1", "mutations:2", "mutations:3",
 		"val:zero", "val:neg", "val:missing", "val:null", "val:huge",
 		"kind:prefixlen", "kind:duration", "kind:size", "kind:count", "kind:enum", "kind:xref",
@@ -1179,9 +1504,12 @@ func TestVerifC20Mutate(t *testing.T) {
 	ck := vc20NewChecker(t, st)
 	weighted := ck.vc20Weights()
 
+	ck.variants = ck.fx.vc20ServerVariants(t)
+
 	rapid.Check(t, func(t *rapid.T) {
+		ck.drawnClasses = nil
 		muts, pair := ck.vc20DrawMutations(t, weighted)
-		ck.vc20Eval(t, muts, pair)
+		ck.vc20EvalClasses(t, muts, pair, ck.drawnClasses)
 	})
 
 	st.Extra("queries_that_reached_the_loopback_upstream", ck.fx.upsCount.Load())
